@@ -743,8 +743,11 @@ def _per_walk_state_reset(ctx):
     cv = ms.get("ctxvisit")
     if cv is None:
         raise AnalysisError(f"{AS_}:CtxAwareTransformer.ctxvisit missing")
+    # (helper-transparent view: the set-up may live in a helper that only ctxvisit calls)
+    only_cv = {nm_ for nm_ in ms if nm_ not in ("__init__", "ctxvisit") and any(call_name(c_) == f"self.{nm_}" for c_ in calls_in(cv)) and not any(call_name(c_) == f"self.{nm_}" for on_, of_ in ms.items() if on_ != "ctxvisit" for c_ in calls_in(of_))}
+    cv = flat(ctx, cv, 2, skip=tuple(sorted(set(ms) - only_cv)))
     cfg = CFG(cv)
-    walk = [n for n in cfg.nodes if n.kind == "stmt" and any(call_name(c) == "self.visit" for c in calls_in(n.ast))]
+    walk = [n for n in cfg.nodes if n.kind == "stmt" and any(call_name(c) == "self.visit" for c in calls_in(n.ast)) and not getattr(n.ast, "_xv_call_marker", False)]
     if not walk:
         raise AnalysisError(f"{AS_}:CtxAwareTransformer.ctxvisit: the walk (self.visit) was not found")
     rebound = {}
@@ -756,7 +759,7 @@ def _per_walk_state_reset(ctx):
     FILL = {"add", "append", "update", "setdefault", "extend", "insert", "appendleft"}
     filled = {}
     for nm, f in ms.items():
-        if nm in ("__init__", "ctxvisit"):
+        if nm in ("__init__", "ctxvisit") or nm in only_cv:
             continue
         for x in walk_local(f):
             if isinstance(x, ast.Assign):
